@@ -132,6 +132,9 @@ pub fn check_tallies(c: &LoopCase, o: &LoopOutcome, tr: &Traces, t_eff: usize) -
 pub fn check_case(c: &LoopCase) -> Verdict {
     let t_eff = c.effective_threads();
     let o = run_loop(c);
+    if o.abandoned {
+        return Verdict::Inconclusive("runaway run (event budget)".into());
+    }
     if let Err(e) = &o.result {
         return Verdict::fail("unexpected-panic", format!("loop panicked: {e}\ncase: {c:?}"));
     }
